@@ -343,6 +343,7 @@ def plan_c11(prop, tier, seed, t0):
                 OpKinds={"CreateTopic", "DeleteTopic", "CreateSub", "DeleteSub", "GetSub", "Publish", "Pull", "Walk"},
                 MaxOps=6, MaxMsgs=2)
     return core_check(prop, tier, seed, t0, over, explore=[("churn", 64, 3000)],
+                      extra_scenarios=lambda quick, sd: cancel_scenarios(sd, kinds={"DeleteSub", "DeleteTopic", "CreateSub"}, quick=quick),
                       thorough={"mc": dict(MaxOps=7)})
 
 
@@ -384,9 +385,11 @@ def plan_c15(prop, tier, seed, t0):
 
     def extra(quick, seed):
         out = []
-        cases = [(5, 0), (5, -1), (3, 65536), (3, 65537), (3, 65535), (1200, 999), (1200, 1000), (1200, 1001), (3, 2147483647)]
+        cases = [(5, 0), (5, -1), (3, 65536), (3, 65537), (3, 65535), (1200, 999), (1200, 1000), (1200, 1001), (3, 2147483647),
+                 (66000, 65535), (66000, 65536), (66000, 65537), (66000, 131072), (2500, 1000), (2500, 2000)]
         if not quick:
-            cases += [(66000, 65535), (66000, 65536), (66000, 65537), (2500, 1000), (2500, 2000)]
+            cases += [(66000, 1), (66000, 2147483647), (140000, 131071), (140000, 131072), (140000, 131073),
+                      (1001, 1000), (1000, 1000), (999, 1000), (65536, 65536), (65537, 65536), (65535, 65535)]
         for i, (n, mx) in enumerate(cases):
             steps = [
                 {"do": "call", "c": 1, "call": {"op": "CreateTopic", "name": T1}},
@@ -401,9 +404,11 @@ def plan_c15(prop, tier, seed, t0):
                 left -= k
                 b += 1
             steps.append({"do": "call", "c": 1, "call": {"op": "Pull", "sub": S1, "max": mx, "ri": True}})
-            steps.append({"do": "drain", "c": 9})
-            out.append({"id": "c15-lim-%d" % i, "cap": 16, "seed": seed + i, "phase": 0,
-                        "meta": {"clock": "paused", "proj": V.proj_map(), "src": "limits"}, "steps": steps})
+            steps.append({"do": "call", "c": 1, "call": {"op": "Pull", "sub": S1, "max": mx, "ri": True}})
+            if n <= 50:
+                steps.append({"do": "drain", "c": 9})
+            out.append({"id": "c15-lim-%d-%d" % (n, mx), "cap": 16, "seed": seed + i, "phase": 0,
+                        "meta": {"clock": "paused", "proj": V.proj_map(), "src": "limits", "light": n > 50}, "steps": steps})
         return out
     return core_check(prop, tier, seed, t0, over, extra_scenarios=extra, explore=[("data", 32, 1000)],
                       thorough={"mc": dict(MaxOps=7, MaxMsgs=5)})
@@ -487,6 +492,17 @@ def c12_scenarios(n_seeds, seed):
             start("d", 1, op="DeleteSub", name=S1),
             {"do": "wait", "h": "d"}, {"do": "wait", "h": "pub"}, {"do": "wait", "h": "p"}, {"do": "swait", "h": "s"}],
             seed=sd, cap=cap))
+        # F: the client that asked for the deletion walks away while it is being processed.
+        for polls, yields in ((1, 0), (1, 1), (2, 1)):
+            if k >= 6 and k % 3 != polls + yields - 1:
+                continue
+            out.append(scn("c12-F-%d-p%dy%d" % (k, polls, yields), pre + [
+                {"do": "sopen", "h": "s", "c": 2, "sub": S1, "max": 10},
+                start("p", 3, op="Pull", sub=S1, max=1, ri=False), {"do": "settle"},
+                {"do": "polldrop", "c": 1, "call": dict(op="DeleteSub", name=S1), "polls": polls, "yields": yields},
+                {"do": "settle"},
+                call(5, op="GetSub", name=S1),
+                {"do": "wait", "h": "p"}, {"do": "swait", "h": "s"}], seed=sd, cap=cap))
     return out
 
 
